@@ -112,7 +112,7 @@ PROPS["C16"] = {
     "rule": ("each run generates an upstream list of 1-4 entries of kinds {tcp, unix, tcp+tls, ws, udp}, each healthy or failing in one manner {refused, black-holed connect, accepts and stays "
              "silent, silent after the first answer, silent inside the StartTLS handshake, error status, no security while the client requires it}, a listener with forward address {absent, reachable, refused}, 1-3 concurrent local connections, then a history "
              "{none, carrier reset, silent loss, server crash+restart} followed by new local connections; non-trivial = the selection/forward/refusal outcome was judged; distinct = schedule shapes"),
-    "probes": ["failover_settled", "forward_direct", "all_failing_refused", "reconnect_ok", "insecure_upstream_skipped", "fault_carrier_reset", "fault_carrier_timeout", "fault_partition", "fault_server_restart"],
+    "probes": ["failover_settled", "forward_direct", "all_failing_refused", "reconnect_ok", "loss_with_open_connections", "insecure_upstream_skipped", "fault_carrier_reset", "fault_carrier_timeout", "fault_partition", "fault_server_restart"],
     "technique": "deterministic simulation: generated upstream lists x failure modes x session-loss histories, accept-log/physical-connection-count/recovery-bound oracles",
     "level_text": ("Seeded exploration. Oracles: the forward target gets the connection and no upstream is contacted when the forward address is reachable; otherwise the first healthy entry that "
                    "meets the security requirement carries the session, later entries are never contacted, exactly one physical connection exists for all concurrent logical connections, "
@@ -249,8 +249,8 @@ PROPS["C12"] = {
              "from the session's own address (names: root, ordinary lookups under and outside the domain, 1-3 character names, every command letter in both cases with valid / out-of-range / "
              "non-base-36 user ids, empty / short / maximum-label / high-byte bodies, extreme size fields, header-only, and mutations of the session's own captured queries; 14 query types, 3 "
              "classes); or the client's genuine answers are replaced (same id) by hostile ones (no records, truncated, records shorter than their order tag, empty strings, root targets, mixed "
-             "types with foreign names, error rcodes, missing question, dropped/duplicated records, payload cut short); non-trivial = the run reached its final judgement; distinct = message-kind sequences"),
-    "probes": ["injected_queries", "hostile_answers", "sessions_intact"],
+             "types with foreign names, error rcodes, missing question, dropped/duplicated records, payload cut short, a correctly wrapped payload of another command, or the genuine answer re-encoded with lying fields: probe sizes up to 2^32-1 over a short body, out-of-range identifiers, wild sequence numbers) - after the handshake, or while the handshake's version / codec / fragment-size probes are running; every hostile answer and every injected query is delivered at a quiescent point and the allocation it causes is bounded (64 MiB); non-trivial = the run reached its final judgement; distinct = message-kind sequences"),
+    "probes": ["injected_queries", "hostile_answers", "hostile_handshake_answers", "handshakes_survived_hostile_answers", "sessions_intact"],
     "technique": "deterministic simulation: message injection into live sessions (structured + mutational generators), process-survival / allocation-bound / session-unaffected oracles",
     "level_text": ("Seeded exploration; the all-messages quantifier is sampled, not enumerated. Oracles: the worker process survives (a panic or a multi-GiB allocation under ulimit is reported with "
                    "its stack as rule crash / unbounded-allocation by the orchestrator); a single injected query makes the server allocate less than 64 MiB (the repaired server's worst case for a 16 KiB probe answer in 14-byte AAAA records is about 15 MiB; the defect this guards against allocated up to 4 GiB) and its handler finishes within the "
